@@ -893,6 +893,34 @@ pub fn run(plan: &Plan, tape: dsim::Tape) -> RunOut {
                     }
                 })
             }),
+            Action::ForeignTcpListen { port } => dsim::with(|w| {
+                w.at(at, move || {
+                    dsim::with(|w| {
+                        let p = w.new_proc("another-program", vec![], BTreeMap::new(), false);
+                        let _ = w.tcp_listen_opts(p, SocketAddr::new(IpAddr::V4(Ipv4Addr::LOCALHOST), port), false);
+                    })
+                })
+            }),
+            Action::ForeignUdpBind { port } => dsim::with(|w| {
+                w.at(at, move || {
+                    dsim::with(|w| {
+                        let p = w.new_proc("another-program", vec![], BTreeMap::new(), false);
+                        let s = w.udp_socket(p);
+                        let _ = w.udp_bind(s, SocketAddr::new(IpAddr::V4(Ipv4Addr::LOCALHOST), port));
+                    })
+                })
+            }),
+            Action::FdExhaustion { on } => dsim::with(|w| {
+                w.at(at, move || {
+                    let p = ctx(|c| c.server_procs.last().copied());
+                    if let Some(p) = p {
+                        dsim::with(|w| {
+                            w.procs[p].fd_exhausted = on;
+                            w.note(format!("fd exhaustion {}", if on { "begins" } else { "ends" }));
+                        });
+                    }
+                })
+            }),
             Action::WallStepMs(ms) => dsim::with(|w| w.at(at, move || dsim::with(|w| w.wall_step(ms as i128 * dsim::MS as i128)))),
             Action::WallSet { secs, nanos } => dsim::with(|w| w.at(at, move || dsim::with(|w| w.wall_set(secs as i128 * dsim::SEC as i128 + nanos as i128)))),
             Action::WallFreeze { secs, nanos } => dsim::with(|w| w.at(at, move || dsim::with(|w| w.wall_freeze(Some(secs as i128 * dsim::SEC as i128 + nanos as i128))))),
